@@ -27,7 +27,7 @@ ASSUMPTIONS = [
     "dumps with separate_complex_types and validate with add_comments are documented to modify their argument and are excluded",
 ]
 TIERS = {
-    "quick": {"purity": 2500, "machine_runs": 96, "machine_steps": 14, "thread_rounds": 3, "budget_s": 110},
+    "quick": {"purity": 2500, "machine_runs": 64, "machine_steps": 12, "thread_rounds": 3, "budget_s": 110},
     "thorough": {"purity": 60000, "machine_runs": 3000, "machine_steps": 40, "thread_rounds": 64, "budget_s": 2400},
 }
 PARTS = ["search", "machine", "threads"]
